@@ -130,10 +130,25 @@ impl<'a> FciB<'a> {
     }
 }
 
+thread_local! {
+    /// probing route for the sub-builders too (FCI, SDES chunk / item): observers between their setters.
+    /// Set by `with_writer` for the duration of a construction with `How.probe`.
+    static PROBE_DEEP: std::cell::Cell<bool> = const { std::cell::Cell::new(false) };
+}
+fn probing() -> bool {
+    PROBE_DEEP.with(|c| c.get())
+}
+pub fn set_probing(on: bool) {
+    PROBE_DEEP.with(|c| c.set(on));
+}
+
 pub fn mk_nack(list: &[u16]) -> NackBuilder {
     let mut b = Nack::builder();
     for s in list {
         b = b.add_rtp_sequence(*s);
+        if probing() {
+            let _ = b.calculate_size();
+        }
     }
     b
 }
@@ -141,6 +156,9 @@ pub fn mk_sli(list: &[(u16, u16, u8)]) -> SliBuilder {
     let mut b = Sli::builder();
     for e in list {
         b = b.add_lost_macroblock(e.0, e.1, e.2);
+        if probing() {
+            let _ = b.calculate_size();
+        }
     }
     b
 }
@@ -148,13 +166,27 @@ pub fn mk_fir(list: &[(u32, u8)]) -> FirBuilder {
     let mut b = Fir::builder();
     for e in list {
         b = b.add_ssrc(e.0, e.1);
+        if probing() {
+            let _ = b.calculate_size();
+        }
     }
     b
 }
 pub fn mk_rpsi<'a>(pt: u8, bits: &'a [u8], overrun: u8) -> RpsiBuilder<'a> {
+    if probing() {
+        // the other order of the two setters, with an observer in between
+        let b = Rpsi::builder().native_data(bits, overrun);
+        let _ = b.calculate_size();
+        return b.payload_type(pt);
+    }
     Rpsi::builder().payload_type(pt).native_data(bits, overrun)
 }
 pub fn mk_rpsi_owned(pt: u8, bits: &[u8], overrun: u8) -> RpsiBuilder<'static> {
+    if probing() {
+        let b = Rpsi::builder().native_data_owned(bits.to_vec(), overrun);
+        let _ = b.calculate_size();
+        return b.payload_type(pt);
+    }
     Rpsi::builder().payload_type(pt).native_data_owned(bits.to_vec(), overrun)
 }
 
@@ -194,6 +226,9 @@ pub fn mk_rb(b: &Rb) -> ReportBlockBuilder {
 
 pub fn mk_item<'a>(i: &'a Item) -> SdesItemBuilder<'a> {
     let mut b = SdesItem::builder(i.type_, i.value.as_str());
+    if probing() {
+        let _ = b.write_into(&mut []);
+    }
     if !i.prefix.is_empty() {
         b = b.prefix(&i.prefix[..]);
     }
@@ -212,6 +247,10 @@ pub fn mk_chunk<'a>(c: &'a Chunk, owned: bool) -> SdesChunkBuilder<'a> {
             }
         } else {
             b = b.add_item(mk_item(i));
+        }
+        if probing() {
+            // an application may write a partially configured chunk (e.g. to measure it) and go on adding items
+            let _ = b.write_into(&mut []);
         }
     }
     b
@@ -246,12 +285,30 @@ pub fn construct<'a, V: Visit<'a>>(
     next: &mut usize,
     v: V,
 ) -> V::Out {
+    // The harness normally drives writers through `&dyn RtcpPacketWriter` (the blanket
+    // `RtcpPacketWriterExt::write_into`). Here the *concrete* type is still known, so method syntax resolves
+    // the way it does in an application (an inherent method, if one exists, shadows the trait's): when a
+    // concrete outcome was requested for the top-level builder, take it now.
+    macro_rules! hook {
+        ($w:expr) => {{
+            if concrete_depth() == 0 {
+                if let Some(mut buf) = take_concrete_request() {
+                    let size = $w.calculate_size();
+                    let wrote = $w.write_into(&mut buf[..]);
+                    put_concrete_result(size, wrote, buf);
+                }
+            }
+        }};
+    }
     macro_rules! out {
         ($b:expr) => {{
             let b = $b;
             if how.wrap {
-                v.visit(PacketBuilder::from(b))
+                let w = PacketBuilder::from(b);
+                hook!(w);
+                v.visit(w)
             } else {
+                hook!(b);
                 v.visit(b)
             }
         }};
@@ -391,6 +448,7 @@ pub fn construct<'a, V: Visit<'a>>(
             let mut vv = Some(v);
             let r = crate::with_custom!(*pt, *min, C, B, {
                 let b: B<'a> = B { count: *count, body: &body[..], padding: *padding, report_some_zero: how.owned };
+                hook!(b);
                 vv.take().unwrap().visit(b)
             });
             match r {
@@ -405,30 +463,98 @@ pub fn construct<'a, V: Visit<'a>>(
         }
         Cfg::Compound(members) => {
             let mut cb = Compound::builder();
+            concrete_depth_add(1);
             for m in members {
                 // nested members keep `owned`, never `wrap` a compound
                 let h = How { owned: how.owned, wrap: how.wrap && !m.is_compound(), probe: how.probe };
                 cb = pr!(construct(m, h, fcis, next, AddTo(cb)));
             }
+            concrete_depth_add(-1);
+            hook!(cb);
             v.visit(cb)
         }
+    }
+}
+
+thread_local! {
+    static CONCRETE_REQ: RefCell<Option<Vec<u8>>> = const { RefCell::new(None) };
+    #[allow(clippy::type_complexity)]
+    static CONCRETE_RES: RefCell<Option<(Result<usize, RtcpWriteError>, Result<usize, RtcpWriteError>, Vec<u8>)>> = const { RefCell::new(None) };
+    static CONCRETE_DEPTH: std::cell::Cell<i32> = const { std::cell::Cell::new(0) };
+}
+fn concrete_depth() -> i32 {
+    CONCRETE_DEPTH.with(|c| c.get())
+}
+fn concrete_depth_add(d: i32) {
+    CONCRETE_DEPTH.with(|c| c.set(c.get() + d));
+}
+fn take_concrete_request() -> Option<Vec<u8>> {
+    CONCRETE_REQ.with(|c| c.borrow_mut().take())
+}
+fn put_concrete_result(size: Result<usize, RtcpWriteError>, wrote: Result<usize, RtcpWriteError>, buf: Vec<u8>) {
+    CONCRETE_RES.with(|c| *c.borrow_mut() = Some((size, wrote, buf)));
+}
+
+struct Discard;
+impl<'a> Visit<'a> for Discard {
+    type Out = ();
+    fn visit<W: RtcpPacketWriter + 'a>(self, _w: W) {}
+}
+
+/// `calculate_size()` and `write_into(buf)` called with method syntax on the *concrete* builder type of the
+/// top-level configuration (see the `hook!` macro in `construct`); `buf` is handed over pre-filled.
+/// Returns (size result, write result, buffer afterwards); None when the builder could not be constructed.
+pub fn concrete_outcome(cfg: &Cfg, how: How, buf: Vec<u8>) -> Option<(WOut, WOut, Vec<u8>)> {
+    let mut fcis = vec![];
+    set_probing(how.probe);
+    let made = call(|| make_fcis(cfg, &mut fcis));
+    if made.is_err() {
+        set_probing(false);
+        return None;
+    }
+    let mut next = 0;
+    let h = How { owned: how.owned, wrap: how.wrap && !cfg.is_compound(), probe: how.probe };
+    CONCRETE_DEPTH.with(|c| c.set(0));
+    CONCRETE_REQ.with(|c| *c.borrow_mut() = Some(buf));
+    CONCRETE_RES.with(|c| *c.borrow_mut() = None);
+    let r = call(|| construct(cfg, h, &fcis, &mut next, Discard));
+    set_probing(false);
+    CONCRETE_DEPTH.with(|c| c.set(0));
+    let leftover = take_concrete_request();
+    let res = CONCRETE_RES.with(|c| c.borrow_mut().take());
+    match (r, res) {
+        (Ok(()), Some((size, wrote, buf))) => {
+            let conv = |x: Result<usize, RtcpWriteError>| match x {
+                Ok(n) => WOut::Ok(n),
+                Err(e) => WOut::Err(e),
+            };
+            Some((conv(size), conv(wrote), buf))
+        }
+        (Err(p), _) => {
+            // the unwind happened in a setter, an observer, or in the concrete calls themselves
+            let _ = leftover;
+            Some((WOut::Panic(p.clone()), WOut::Panic(p), vec![]))
+        }
+        _ => None,
     }
 }
 
 /// Build the real writer for `cfg` and run `f` on it.
 pub fn with_writer<R>(cfg: &Cfg, how: How, f: impl FnOnce(&DynW) -> R) -> R {
     let mut fcis = vec![];
-    if !how.owned {
-        make_fcis(cfg, &mut fcis);
-    } else {
-        // indices are still consumed; keep the store aligned
-        make_fcis(cfg, &mut fcis);
+    set_probing(how.probe);
+    // (the FCI builders are made up front so that `builder(&fci)` can borrow them; their setter and
+    // observer calls are calls into the crate as well)
+    if let Err(p) = call(|| make_fcis(cfg, &mut fcis)) {
+        set_probing(false);
+        return f(&DynW(&ConstructionPanicked(p)));
     }
     let mut next = 0;
     let h = How { owned: how.owned, wrap: how.wrap && !cfg.is_compound(), probe: how.probe };
     // the setter (and probe) calls are calls into the crate too: observed, so that a panic in one
     // is attributed to the crate and surfaces as a panicking writer
     let built = call(|| construct(cfg, h, &fcis, &mut next, BoxIt));
+    set_probing(false);
     let r = match built {
         Ok(w) => {
             let r = f(&DynW(&*w));
